@@ -9,6 +9,8 @@ is read back.
     (a) no holder ever has, for a commit, a note other than the one its author's clone wrote for it
         (blob ids compared with what the writing clone produced at commit time),
     (b) keys on the remote never disappear,
+    (d) keys of a clone's own refs/notes/ai never disappear (a push / fetch / commit of the clone, or
+        of anybody else, never makes the clone forget a note it had),
     (c) whenever, at user-command granularity, every clone has pushed after its last commit and
         then fetched after all those pushes ("once every clone has pushed and then fetched"), and
         always after the closing suffix "every clone pushes, one after the other, then every clone
@@ -21,7 +23,12 @@ is read back.
 Racing pushes are produced deterministically with the guarded rendezvous hook
 `verif_api::sync_point` (env GIT_AI_VERIF_SYNC_DIR) placed before the pre-push merge, before the
 notes push and before the post-fetch merge: a user push is split into pf (fetch into the tracking
-ref) / pm (merge) / pe (non-forced push), a user fetch into ff / fe.
+ref) / pm (merge) / pe (non-forced push), a user fetch into ff / fe.  ps starts a push and stops it
+while its pre-push notes fetch is on the wire (remote.origin.uploadpack wrapper that waits at the
+rendezvous `wire`; only the pre-push notes fetch of a push talks to upload-pack).  The SAME clone
+may commit at every one of these points (an agent committing while the user pushes / fetches).
+The model expands the user-level tokens itself, in the order of the code read by
+tools/gen/GenSync.py (where the existence test of refs/notes/ai sits relative to the fetch).
 """
 import glob
 import os
@@ -32,12 +39,12 @@ import time
 from . import common as C
 from .gitsim import Sim, REALGIT
 
-GEN_FILES = []
+GEN_FILES = ["GenSync"]
 DRIVERS = ["sync"]
 THEOREMS = ["C10_no_loss", "C10_single_writer_values", "C10_push_atomic_succeeds",
             "C10_rejected_only_when_pushes_overlap", "C10_converge",
             "C10_converge_sequential", "C10_first_sync", "C10_race_needs_repush", "C10_ours_example",
-            "C10_nonvacuous"]
+            "C10_nonvacuous", "C10_code_order", "C10_commit_during_sync_safe", "C10_copy_window_refuted"]
 CLAIM = {
     "text": "Machine-checked proof (Coq 8.16.1, closed) over an executable model of the notes-sync protocol "
             "(Model/Sync.v: append-only DAG of notes commits, per clone refs/notes/ai and the tracking ref, the remote "
@@ -81,26 +88,60 @@ SYNC_NAMES = ("notes-push-merge", "notes-push", "notes-fetch-merge")
 #   pf pm pe : a push split at the rendezvous points | ff fe : a fetch split before its merge
 # ---------------------------------------------------------------------------------------------
 def expand(tokens):
-    """token schedule -> model steps (s-expr lists) and, per token, the index of its last model step"""
+    """token schedule -> primitive steps in the unchanged code's order (used only by known() and the
+    user-level predicates, which look at ft / pr / commit positions) and, per token, the index of its
+    last step"""
     steps, ends, k = [], [], 0
     for op, i in tokens:
         if op == "c":
             k += 1
             steps.append(["commit", i, k, 100 + k])
         elif op == "p":
-            steps += [["ft", i], ["ml", i], ["pr", i]]
+            steps += [["ft", i], ["tl", i], ["ml", i], ["pr", i]]
         elif op in ("f", "l", "j"):
-            steps += [["ft", i], ["ml", i]]
+            steps += [["ft", i], ["tl", i], ["ml", i]]
+        elif op == "ps":
+            pass
         elif op in ("pf", "ff"):
             steps.append(["ft", i])
         elif op in ("pm", "fe"):
-            steps.append(["ml", i])
+            steps += [["tl", i], ["ml", i]]
         elif op == "pe":
             steps.append(["pr", i])
         else:
             raise ValueError(op)
         ends.append(len(steps) - 1)
     return steps, ends
+
+
+def model_tokens(tokens):
+    """user-level tokens for the model driver, which expands them in the order of the CURRENT source"""
+    out, k, started = [], 0, set()
+    for op, i in tokens:
+        if op == "c":
+            k += 1
+            out.append(["commit", i, k, 100 + k])
+        elif op == "p":
+            out.append(["push", i])
+        elif op in ("f", "l", "j"):
+            out.append(["fetch", i])
+        elif op == "ps":
+            started.add(i)
+            out.append(["p0", i])
+        elif op == "pf":
+            out.append(["p1" if i in started else "p01", i])
+            started.discard(i)
+        elif op == "pm":
+            out.append(["p2", i])
+        elif op == "pe":
+            out.append(["p3", i])
+        elif op == "ff":
+            out.append(["f01", i])
+        elif op == "fe":
+            out.append(["f2", i])
+        else:
+            raise ValueError(op)
+    return out
 
 
 def known(steps):
@@ -138,8 +179,10 @@ def user_level_synced(tokens, n):
                 continue
             if op == "p" and t > last_commit[i]:
                 done_push[i] = t
-            elif op == "pf" and t > last_commit[i]:
+            elif op in ("ps", "pf") and t > last_commit[i] and begun is None:
                 begun = t
+            elif op in ("ps", "pf") and t <= last_commit[i]:
+                begun = None
             elif op == "pe" and begun is not None:
                 done_push[i] = t
                 begun = None
@@ -163,7 +206,7 @@ def user_level_synced(tokens, n):
 
 
 def well_formed(tokens, n):
-    """per clone: sub-steps in order, nothing else while an operation is in flight, j first if present"""
+    """per clone: sub-steps in order; while an operation is in flight the clone may only commit; j first"""
     st = {i: None for i in range(n)}
     joined = {i: True for i in range(n)}
     for op, i in tokens:
@@ -178,13 +221,17 @@ def well_formed(tokens, n):
         if not joined[i]:
             return False
         cur = st[i]
-        if op in ("c", "p", "f", "l", "pf", "ff"):
+        if op == "c":
+            continue
+        if op in ("p", "f", "l", "ps", "ff"):
             if cur is not None:
                 return False
-            if op == "pf":
-                st[i] = "pf"
-            elif op == "ff":
-                st[i] = "ff"
+            if op in ("ps", "ff"):
+                st[i] = op
+        elif op == "pf":
+            if cur not in (None, "ps"):
+                return False
+            st[i] = "pf"
         elif op == "pm":
             if cur != "pf":
                 return False
@@ -224,6 +271,17 @@ class CloneSim(Sim):
         self.errf = None
         self.exists = False
         self.nfile = 0
+        self.wrapper = os.path.join(self.sync, "uploadpack.sh")
+        with open(self.wrapper, "w") as f:
+            f.write("#!/bin/sh\n"
+                    f"d='{self.sync}'\n"
+                    'if [ -e "$d/wire.hold" ]; then\n'
+                    '  : > "$d/wire.reached"\n'
+                    '  i=0\n'
+                    '  while [ -e "$d/wire.hold" ] && [ $i -lt 6000 ]; do sleep 0.01; i=$((i+1)); done\n'
+                    'fi\n'
+                    'exec git-upload-pack "$@"\n')
+        os.chmod(self.wrapper, 0o755)
 
     def env(self, extra=None):
         e = super().env(extra)
@@ -300,6 +358,7 @@ class World:
         if rc != 0:
             self.engine_errors.append(f"clone {i} failed: {err[-300:]}")
         cl.realgit("checkout", "-q", "-b", cl.branch)
+        cl.realgit("config", "remote.origin.uploadpack", cl.wrapper)
         cl.exists = True
 
     def notes(self, i=None):
@@ -364,8 +423,15 @@ class World:
             rc, out, err = cl.git("pull", "-q", "--no-rebase", "origin", "main")
             if rc != 0:
                 self.engine_errors.append(f"pull {i} rc={rc}: {err[-300:]}")
+        elif op == "ps":
+            cl.start_async(["push", "-q", "origin", cl.branch], ["wire", "notes-push-merge", "notes-push"])
+            if cl.wait_point() != "wire":
+                self.engine_errors.append(f"push {i}: the pre-push notes fetch did not reach the wire rendezvous")
         elif op == "pf":
-            cl.start_async(["push", "-q", "origin", cl.branch], ["notes-push-merge", "notes-push"])
+            if cl.proc is None:
+                cl.start_async(["push", "-q", "origin", cl.branch], ["notes-push-merge", "notes-push"])
+            else:
+                cl.release("wire")
             cl.wait_point()
         elif op == "pm":
             if cl.at == "notes-push-merge":
@@ -433,6 +499,7 @@ def scenario(args):
                 w.join(i)
         full = list(tokens) + (closing(n) if with_closing else [])
         prev_remote = {}
+        prev_local = [{} for _ in range(n)]
         synced_points = []
         for t, (op, i) in enumerate(full):
             r = w.step(op, i)
@@ -443,6 +510,11 @@ def scenario(args):
             if lost:
                 fails.append({"what": f"ORACLE(b) remote lost the notes of commits {lost}", "at": t})
             prev_remote = rm
+            for c, l in enumerate(ls):
+                gone = [k for k in prev_local[c] if k not in l]
+                if gone:
+                    fails.append({"what": f"ORACLE(d) clone {c} lost its notes of commits {gone}", "at": t})
+            prev_local = ls
             obs.append((rm, ls))
             pushes.append(r["pushed"])
             # oracle (c)
@@ -535,6 +607,39 @@ def enum_races():
     return out
 
 
+def enum_own_commit():
+    """the SAME clone commits while its own push / fetch is in flight, at every rendezvous point (on the
+    wire before the pre-push fetch lands, after the fetch, before the notes push; before the post-fetch
+    merge), for first-time syncs (the clone has no notes ref yet) and for clones that have one, against a
+    remote with and without notes"""
+    bodies = [
+        [("ps", 1), ("c", 1), ("pf", 1), ("pm", 1), ("pe", 1)],
+        [("ps", 1), ("pf", 1), ("c", 1), ("pm", 1), ("pe", 1)],
+        [("ps", 1), ("pf", 1), ("pm", 1), ("c", 1), ("pe", 1)],
+        [("ps", 1), ("c", 1), ("pf", 1), ("c", 1), ("pm", 1), ("c", 1), ("pe", 1)],
+        [("pf", 1), ("c", 1), ("pm", 1), ("pe", 1)],
+        [("pf", 1), ("pm", 1), ("c", 1), ("pe", 1)],
+        [("ff", 1), ("c", 1), ("fe", 1)],
+        [("ff", 1), ("c", 1), ("fe", 1), ("p", 1)],
+    ]
+    prefixes = [
+        [("c", 0), ("p", 0)],                 # remote has notes, clone 1 has none: first-time sync
+        [("c", 0), ("p", 0), ("c", 1)],       # remote has notes, clone 1 has its own
+        [("c", 0), ("p", 0), ("f", 1)],       # clone 1 already has the remote's notes
+        [("c", 0)],                           # remote has no notes
+        [("c", 1)],
+    ]
+    out = []
+    for pre in prefixes:
+        for b in bodies:
+            out.append(pre + b)
+            out.append(pre + b + [("f", 0)])
+    # both clones at once, three clones
+    out.append([("c", 0), ("p", 0), ("ps", 1), ("ps", 2), ("c", 1), ("c", 2), ("pf", 1), ("pf", 2),
+                ("pm", 1), ("pm", 2), ("pe", 1), ("pe", 2)])
+    return out
+
+
 def gen_random(r, n, length):
     toks, st, joined = [], {i: None for i in range(n)}, {i: True for i in range(n)}
     late = n - 1 if (n >= 3 and r.chance(1, 3)) else None
@@ -548,19 +653,25 @@ def gen_random(r, n, length):
                 joined[i] = True
             continue
         cur = st[i]
-        if cur == "pf":
+        if cur is not None and r.chance(1, 3):
+            toks.append(("c", i))                      # the same clone commits while its sync is in flight
+        elif cur == "ps":
+            toks.append(("pf", i)); st[i] = "pf"
+        elif cur == "pf":
             toks.append(("pm", i)); st[i] = "pm"
         elif cur == "pm":
             toks.append(("pe", i)); st[i] = None
         elif cur == "ff":
             toks.append(("fe", i)); st[i] = None
         else:
-            op = r.weighted([(30, "c"), (18, "p"), (14, "f"), (6, "l"), (22, "pf"), (10, "ff")])
+            op = r.weighted([(30, "c"), (18, "p"), (14, "f"), (6, "l"), (12, "pf"), (12, "ps"), (10, "ff")])
             toks.append((op, i))
-            if op in ("pf", "ff"):
+            if op in ("pf", "ps", "ff"):
                 st[i] = op
     for i in range(n):                      # complete what is in flight
-        if st[i] == "pf":
+        if st[i] == "ps":
+            toks += [("pf", i), ("pm", i), ("pe", i)]
+        elif st[i] == "pf":
             toks += [("pm", i), ("pe", i)]
         elif st[i] == "pm":
             toks.append(("pe", i))
@@ -573,13 +684,10 @@ def gen_random(r, n, length):
 
 # ---------------------------------------------------------------------------------------------
 def model_runs(runs):
-    """runs: list of (name, n, full token list) -> {name: (per-token (remote, locals, outcome)), known}"""
+    """runs: list of (name, n, full token list) -> {name: per-token (remote, locals, outcome), fuel, known, window}"""
     cases = []
-    meta = {}
     for name, n, full in runs:
-        steps, ends = expand(full)
-        cases.append((name, f"{n} {C.sx(steps)}"))
-        meta[name] = (steps, ends)
+        cases.append((name, f"{n} {C.sx(model_tokens(full))}"))
     res = C.run_cases(C.driver_path("sync"), "c10-run", cases)
     out = {}
     for name, n, full in runs:
@@ -588,14 +696,10 @@ def model_runs(runs):
             out[name] = None
             continue
         groups = C.sx_parse_many(line)
-        steps, ends = meta[name]
-        per_step = groups[:len(steps)]
-        tail = {g[0]: g[1] for g in groups[len(steps):]}
-        seq = []
-        for e in ends:
-            o, rm, ls = per_step[e]
-            seq.append(({k: v for k, v in rm}, [{k: v for k, v in l} for l in ls], o))
-        out[name] = {"seq": seq, "fuel": tail.get("fuel"), "known": tail.get("known")}
+        per_tok = groups[:len(full)]
+        tail = {g[0]: g[1] for g in groups[len(full):]}
+        seq = [({k: v for k, v in rm}, [{k: v for k, v in l} for l in ls], o) for o, rm, ls in per_tok]
+        out[name] = {"seq": seq, "fuel": tail.get("fuel"), "known": tail.get("known"), "window": tail.get("window")}
     return out
 
 
@@ -614,6 +718,8 @@ def run(ctx):
             plans.append((f"r{k}", 2, toks, True, "race"))
         for k, toks in enumerate(enum_atomic(2, 3, ops=("c", "p", "f", "l"))):
             plans.append((f"l3-{k}", 2, toks, True, "atomic-pull"))
+        for k, toks in enumerate(enum_own_commit()):
+            plans.append((f"o{k}", 3 if any(i == 2 for _, i in toks) else 2, toks, True, "own-commit-in-flight"))
         rr = r.fork("quick-random")
         for k, toks in enumerate(rr.shuffle(enum_atomic(2, 5))[:100]):
             plans.append((f"a5-{k}", 2, toks, True, "atomic-len5-sample"))
@@ -629,6 +735,8 @@ def run(ctx):
             plans.append((f"l3-{k}", 2, toks, True, "atomic-pull"))
         for k, toks in enumerate(enum_races()):
             plans.append((f"r{k}", 2, toks, True, "race"))
+        for k, toks in enumerate(enum_own_commit()):
+            plans.append((f"o{k}", 3 if any(i == 2 for _, i in toks) else 2, toks, True, "own-commit-in-flight"))
         rr = r.fork("thorough-random")
         for k in range(1500):
             n = rr.pick([2, 3, 3])
@@ -647,7 +755,7 @@ def run(ctx):
         mod = model_runs([(name, n, list(toks) + (closing(n) if wc else [])) for name, n, toks, wc, _ in plans])
 
     fam_count, tok_count, outcomes = {}, {}, {"push_done": 0, "push_skipped": 0}
-    tie_bad, known_tie_bad, fuel_bad, reject_outside = [], [], [], []
+    tie_bad, known_tie_bad, fuel_bad, reject_outside, window_bad = [], [], [], [], []
     n_steps, distinct, k1_hits, synced_checked = 0, set(), 0, 0
     k1_witness_fails = False
     for (name, n, toks, wc, fam), rs in zip(plans, res):
@@ -706,6 +814,8 @@ def run(ctx):
                 continue
             if m["fuel"] != 0:
                 fuel_bad.append(tok_str(full))
+            if m["window"] != 0:
+                window_bad.append(tok_str(full))
             if bool(m["known"]) != known(steps):
                 known_tie_bad.append(tok_str(full))
             for t, ((rm, ls), (mrm, mls, mo)) in enumerate(zip(rs["obs"], m["seq"])):
@@ -725,6 +835,9 @@ def run(ctx):
     obligations.append(("tie:known-class predicate (Coq Known_C10 = vlib known) on every schedule",
                         ctx.model_ok and not known_tie_bad, "; ".join(known_tie_bad[:3])))
     obligations.append(("monitor:fuel never exhausted on any executed schedule", not fuel_bad, "; ".join(fuel_bad[:3])))
+    obligations.append(("monitor:no executed schedule puts a commit into the copy window of the model (the existence test of "
+                        "refs/notes/ai and the copy acting on it are adjacent processes; rendezvous points lie outside)",
+                        not window_bad, "; ".join(window_bad[:3])))
     obligations.append(("monitor:a real notes push is skipped only inside the overlap class C10-K1 (or when the clone has no notes)",
                         not reject_outside, "; ".join(reject_outside[:3])))
     if k1_witness_fails or k1_hits:
@@ -738,7 +851,8 @@ def run(ctx):
                 "fetches optionally split at the rendezvous points) by 2-3 real clones of one bare remote, all through the "
                 "proxy; quick: ALL atomic schedules of length 4 over 2 clones x {commit,push,fetch} up to clone renaming with "
                 ">=1 commit and >=1 sync, all of length 3 with pull added, all interleavings of a 3-part push with the other clone's programs, both pushes "
-                "split, split fetches, samples of the length-5 (2 clones) and length-4 (3 clones) atomic schedules, 50 random "
+                "split, split fetches, the SAME clone committing at every rendezvous point of its own push (on the wire, after "
+                "the fetch, before the push) and fetch for first-time and later syncs, samples of the length-5 (2 clones) and length-4 (3 clones) atomic schedules, 50 random "
                 "3-clone schedules with late clones, pulls and split operations; each followed by the closing suffix; non-trivial = "
                 "distinct schedule with a commit and a sync step; every step observed on every holder",
         "samples": [tok_str(p[2]) for p in plans[:3]] + [tok_str(K1_WITNESS)],
@@ -750,5 +864,5 @@ def run(ctx):
     }
     return {"obligations": obligations, "violations": violations, "known_seen": known_seen,
             "searched": f"{len(plans)} schedules ({n_steps} observed steps) on real clones: oracle (a) no foreign/invented note, "
-                        f"(b) remote keys never disappear, (c) convergence at {synced_checked} synced points",
+                        f"(b) remote keys never disappear, (d) a clone's keys never disappear, (c) convergence at {synced_checked} synced points",
             "coverage": cov}
